@@ -44,6 +44,8 @@ def stepFind (toks : List String) (impl : String) : Res :=
     ++ (if stored.isNone && res.contains asker && asker != 0 then ["never_the_asker"] else [])
     ++ (if stored.isNone && res.any (fun i => !(tab.any (·.id == i))) then ["only_table_records"] else [])
     ++ (if stored.isSome && (kv it "raw") != "" && kv it "same" != "1" then ["inline_bytes_equal_stored"] else [])
+    -- a key the node holds is answered with the content (inline or by a connection id), never with closer peers
+    ++ (if stored.isSome && (kv it "enrs") != "" then ["held_content_is_served"] else [])
   { model := m, implView := some (project ["enrs", "raw", "same"] impl), monitor := mon,
     tags := ["findcontent", match stored with | none => "absent" | some l => if l ≤ payloadMax then "inline" else "stream",
              if asker == 0 then "stranger" else "asker-in-table", s!"tab{min tab.length 33}"],
